@@ -126,4 +126,17 @@ MUTANTS = {
         "rename_skips_number": [("_core.py", "                next_instance_number += 1\n", "                next_instance_number += 2\n")],
         "ptr_flush_bit": [("_services/info.py", "            self.type,\n            _TYPE_PTR,\n            _CLASS_IN,", "            self.type,\n            _TYPE_PTR,\n            _CLASS_IN_UNIQUE,")],
     },
+    "C11": {
+        "recent_is_half": [("_dns.py", "_RECENT_TIME_MS = 250", "_RECENT_TIME_MS = 500")],
+        "unicast_via_first_sender": [("_handlers/query_handler.py", "            self.zc.async_send(out, addr, port, v6_flow_scope, transport)", "            self.zc.async_send(out, addr, port, v6_flow_scope, self.zc.engine.senders[0])")],
+        "unicast_built_as_multicast": [("_handlers/answers.py", "    out = DNSOutgoing(_FLAGS_QR_RESPONSE_AA, False, id_)", "    out = DNSOutgoing(_FLAGS_QR_RESPONSE_AA, True, id_)")],
+        "aa_flag_dropped": [("_handlers/answers.py", "_FLAGS_QR_RESPONSE_AA = _FLAGS_QR_RESPONSE | _FLAGS_AA", "_FLAGS_QR_RESPONSE_AA = _FLAGS_QR_RESPONSE")],
+        "legacy_no_question_echo": [("_handlers/answers.py", "    if ucast_source:\n        for question in questions:", "    if False:\n        for question in questions:")],
+        "qu_always_unicast": [("_handlers/query_handler.py", "            if not self._has_mcast_within_one_quarter_ttl(record):\n                self._mcast_now.add(record)\n            elif not self._is_probe:", "            if False:\n                self._mcast_now.add(record)\n            elif not self._is_probe:")],
+        "qu_nonprobe_always_multicast": [("_handlers/query_handler.py", "            elif not self._is_probe:\n                self._ucast.add(record)", "            elif False:\n                self._ucast.add(record)")],
+        "probe_not_immediate": [("_handlers/query_handler.py", "            if self._is_probe:\n                self._mcast_now.add(answer)\n                continue\n", "")],
+        "legacy_port_test_wrong": [("_handlers/query_handler.py", "        ucast_source = port != _MDNS_PORT", "        ucast_source = port < 1024")],
+        "ptr_gets_flush": [("_protocol/outgoing.py", "        if record.unique is True and self.multicast:", "        if self.multicast:")],
+        # multicast id forced to 0 in packets(): equivalent here, every multicast DNSOutgoing the stack builds has id 0 anyway
+    },
 }
